@@ -234,6 +234,10 @@ class World:
         """what the registered callback does when the real solver calls it between iterations: re-entry"""
         def hook(it, sol):
             self.probe("callback_invoked")
+            if act.hidden.get("cb_raise_at") is not None and it >= act.hidden["cb_raise_at"]:
+                act.hidden["cb_raise_at"] = None
+                self.fault("callback_raised")
+                raise RuntimeError("user callback failed (injected)")
             try:
                 xs = act.spec.names("state")
                 if xs:
@@ -321,7 +325,12 @@ class World:
     def _solve(self, act, st, step):
         fault = step.get("fault")
         self.seam.mode = step.get("mode", "stub")
-        self.seam.next_fault = fault
+        if fault == "cb_raise":
+            # the user's callback raises in the middle of a real solve
+            act.hidden["cb_raise_at"] = step.get("at", 1)
+            self.seam.next_fault = None
+        else:
+            self.seam.next_fault = fault
         self.seam.stub_point = step.get("point", "x0")
         n0 = self.seam.reached
         try:
@@ -344,6 +353,7 @@ class World:
         finally:
             self.seam.next_fault = None
             self.seam.mode = "stub"
+            act.hidden["cb_raise_at"] = None
         if self.seam.reached > n0:
             st["transcribed"] = True
             st["ever"] = True
@@ -723,6 +733,9 @@ class Scheduler:
                 d["mode"] = "real"
             if r.random() < cfg["p_fault"]:
                 d["fault"] = G.pick(r, ["fail_before", "fail_after", "interrupt"])
+                if sp.cb and d.get("mode") == "real" and r.random() < 0.6:
+                    d["fault"] = "cb_raise"
+                    d["at"] = r.randint(0, 2)
             else:
                 d["point"] = G.pick(r, ["x0", "seeded"])
             return d
